@@ -1,32 +1,38 @@
 import FastorModel.Core.Grid
 /-
-  `Fills N K segs R C`: the segment list `segs` is well formed, all its final events are complete
-  (`kk = K`, accumulation style ≤ 2) and lie in the rectangle `R × C`, and every cell of `R × C` is
-  the target of a final event.  A calculus of such facts over appends and loops.
+  `Fills N P segs R C`: the segment list `segs` is well formed, all its final events satisfy the
+  completeness predicate `P` (for matmul: `k0 = 0`, `kk = K`, accumulation style ≤ 2) and lie in the
+  rectangle `R × C`, and every cell of `R × C` is the target of a final event.  A calculus of such facts over appends and loops.
 -/
 namespace Fastor
 
-structure Fills (N K : Nat) (segs : List Seg) (R C : Nat → Prop) : Prop where
+structure Fills (N : Nat) (P : St → Prop) (segs : List Seg) (R C : Nat → Prop) : Prop where
   ok : ∀ s ∈ segs, SegOK N s
-  inside : ∀ s ∈ segs, ∀ e ∈ s.fin, R e.r ∧ C e.c ∧ e.kk = K ∧ e.style ≤ 2
+  inside : ∀ s ∈ segs, ∀ e ∈ s.fin, R e.r ∧ C e.c ∧ P e
   cover : ∀ r c, R r → C c → ∃ s ∈ segs, ∃ e ∈ s.fin, e.r = r ∧ e.c = c
 
 namespace Fills
-variable {N K : Nat}
+variable {N : Nat} {P : St → Prop}
 
-theorem nil : Fills N K [] (fun _ => False) (fun _ => False) :=
+theorem nil : Fills N P [] (fun _ => False) (fun _ => False) :=
   ⟨by simp, by simp, by intro r c h; exact h.elim⟩
 
-theorem congr {segs R C R' C'} (h : Fills N K segs R C) (hr : ∀ x, R x ↔ R' x) (hc : ∀ x, C x ↔ C' x) :
-    Fills N K segs R' C' :=
+theorem congr {segs R C R' C'} (h : Fills N P segs R C) (hr : ∀ x, R x ↔ R' x) (hc : ∀ x, C x ↔ C' x) :
+    Fills N P segs R' C' :=
   ⟨h.ok, fun s hs e he => by
-      obtain ⟨a, b, c, d⟩ := h.inside s hs e he
-      exact ⟨(hr _).1 a, (hc _).1 b, c, d⟩,
+      obtain ⟨a, b, c⟩ := h.inside s hs e he
+      exact ⟨(hr _).1 a, (hc _).1 b, c⟩,
     fun r c h1 h2 => h.cover r c ((hr _).2 h1) ((hc _).2 h2)⟩
 
+theorem mono {Q : St → Prop} {segs R C} (h : Fills N P segs R C) (hpq : ∀ e, P e → Q e) :
+    Fills N Q segs R C :=
+  ⟨h.ok, fun s hs e he => by
+      obtain ⟨a, b, c⟩ := h.inside s hs e he
+      exact ⟨a, b, hpq e c⟩, h.cover⟩
+
 /-- side by side: same rows, columns `C1` then `C2` -/
-theorem append_cols {A B R C1 C2} (ha : Fills N K A R C1) (hb : Fills N K B R C2) :
-    Fills N K (A ++ B) R (fun c => C1 c ∨ C2 c) := by
+theorem append_cols {A B R C1 C2} (ha : Fills N P A R C1) (hb : Fills N P B R C2) :
+    Fills N P (A ++ B) R (fun c => C1 c ∨ C2 c) := by
   refine ⟨?_, ?_, ?_⟩
   · intro s hs
     rcases List.mem_append.1 hs with h | h
@@ -34,8 +40,8 @@ theorem append_cols {A B R C1 C2} (ha : Fills N K A R C1) (hb : Fills N K B R C2
     · exact hb.ok s h
   · intro s hs e he
     rcases List.mem_append.1 hs with h | h
-    · obtain ⟨a, b, c, d⟩ := ha.inside s h e he; exact ⟨a, Or.inl b, c, d⟩
-    · obtain ⟨a, b, c, d⟩ := hb.inside s h e he; exact ⟨a, Or.inr b, c, d⟩
+    · obtain ⟨a, b, c⟩ := ha.inside s h e he; exact ⟨a, Or.inl b, c⟩
+    · obtain ⟨a, b, c⟩ := hb.inside s h e he; exact ⟨a, Or.inr b, c⟩
   · intro r c hr hc
     rcases hc with hc | hc
     · obtain ⟨s, hs, e, he, h⟩ := ha.cover r c hr hc
@@ -44,8 +50,8 @@ theorem append_cols {A B R C1 C2} (ha : Fills N K A R C1) (hb : Fills N K B R C2
       exact ⟨s, List.mem_append.2 (Or.inr hs), e, he, h⟩
 
 /-- stacked: same columns, rows `R1` then `R2` -/
-theorem append_rows {A B R1 R2 C} (ha : Fills N K A R1 C) (hb : Fills N K B R2 C) :
-    Fills N K (A ++ B) (fun r => R1 r ∨ R2 r) C := by
+theorem append_rows {A B R1 R2 C} (ha : Fills N P A R1 C) (hb : Fills N P B R2 C) :
+    Fills N P (A ++ B) (fun r => R1 r ∨ R2 r) C := by
   refine ⟨?_, ?_, ?_⟩
   · intro s hs
     rcases List.mem_append.1 hs with h | h
@@ -53,8 +59,8 @@ theorem append_rows {A B R1 R2 C} (ha : Fills N K A R1 C) (hb : Fills N K B R2 C
     · exact hb.ok s h
   · intro s hs e he
     rcases List.mem_append.1 hs with h | h
-    · obtain ⟨a, b, c, d⟩ := ha.inside s h e he; exact ⟨Or.inl a, b, c, d⟩
-    · obtain ⟨a, b, c, d⟩ := hb.inside s h e he; exact ⟨Or.inr a, b, c, d⟩
+    · obtain ⟨a, b, c⟩ := ha.inside s h e he; exact ⟨Or.inl a, b, c⟩
+    · obtain ⟨a, b, c⟩ := hb.inside s h e he; exact ⟨Or.inr a, b, c⟩
   · intro r c hr hc
     rcases hr with hr | hr
     · obtain ⟨s, hs, e, he, h⟩ := ha.cover r c hr hc
@@ -64,45 +70,45 @@ theorem append_rows {A B R1 R2 C} (ha : Fills N K A R1 C) (hb : Fills N K B R2 C
 
 /-- a loop over column chunks -/
 theorem flatMap_cols {ι : Type} (L : List ι) (f : ι → List Seg) (R : Nat → Prop) (C : ι → Nat → Prop)
-    (h : ∀ i ∈ L, Fills N K (f i) R (C i)) :
-    Fills N K (L.flatMap f) R (fun c => ∃ i ∈ L, C i c) := by
+    (h : ∀ i ∈ L, Fills N P (f i) R (C i)) :
+    Fills N P (L.flatMap f) R (fun c => ∃ i ∈ L, C i c) := by
   refine ⟨?_, ?_, ?_⟩
   · intro s hs
     obtain ⟨i, hi, hs⟩ := List.mem_flatMap.1 hs
     exact (h i hi).ok s hs
   · intro s hs e he
     obtain ⟨i, hi, hs⟩ := List.mem_flatMap.1 hs
-    obtain ⟨a, b, c, d⟩ := (h i hi).inside s hs e he
-    exact ⟨a, ⟨i, hi, b⟩, c, d⟩
+    obtain ⟨a, b, c⟩ := (h i hi).inside s hs e he
+    exact ⟨a, ⟨i, hi, b⟩, c⟩
   · intro r c hr ⟨i, hi, hc⟩
     obtain ⟨s, hs, e, he, hh⟩ := (h i hi).cover r c hr hc
     exact ⟨s, List.mem_flatMap.2 ⟨i, hi, hs⟩, e, he, hh⟩
 
 /-- a loop over row chunks -/
 theorem flatMap_rows {ι : Type} (L : List ι) (f : ι → List Seg) (R : ι → Nat → Prop) (C : Nat → Prop)
-    (h : ∀ i ∈ L, Fills N K (f i) (R i) C) :
-    Fills N K (L.flatMap f) (fun r => ∃ i ∈ L, R i r) C := by
+    (h : ∀ i ∈ L, Fills N P (f i) (R i) C) :
+    Fills N P (L.flatMap f) (fun r => ∃ i ∈ L, R i r) C := by
   refine ⟨?_, ?_, ?_⟩
   · intro s hs
     obtain ⟨i, hi, hs⟩ := List.mem_flatMap.1 hs
     exact (h i hi).ok s hs
   · intro s hs e he
     obtain ⟨i, hi, hs⟩ := List.mem_flatMap.1 hs
-    obtain ⟨a, b, c, d⟩ := (h i hi).inside s hs e he
-    exact ⟨⟨i, hi, a⟩, b, c, d⟩
+    obtain ⟨a, b, c⟩ := (h i hi).inside s hs e he
+    exact ⟨⟨i, hi, a⟩, b, c⟩
   · intro r c ⟨i, hi, hr⟩ hc
     obtain ⟨s, hs, e, he, hh⟩ := (h i hi).cover r c hr hc
     exact ⟨s, List.mem_flatMap.2 ⟨i, hi, hs⟩, e, he, hh⟩
 
 theorem map_cols {ι : Type} (L : List ι) (f : ι → Seg) (R : Nat → Prop) (C : ι → Nat → Prop)
-    (h : ∀ i ∈ L, Fills N K [f i] R (C i)) :
-    Fills N K (L.map f) R (fun c => ∃ i ∈ L, C i c) := by
+    (h : ∀ i ∈ L, Fills N P [f i] R (C i)) :
+    Fills N P (L.map f) R (fun c => ∃ i ∈ L, C i c) := by
   have := flatMap_cols L (fun i => [f i]) R C h
   rw [List.map_eq_flatMap]; exact this
 
 theorem map_rows {ι : Type} (L : List ι) (f : ι → Seg) (R : ι → Nat → Prop) (C : Nat → Prop)
-    (h : ∀ i ∈ L, Fills N K [f i] (R i) C) :
-    Fills N K (L.map f) (fun r => ∃ i ∈ L, R i r) C := by
+    (h : ∀ i ∈ L, Fills N P [f i] (R i) C) :
+    Fills N P (L.map f) (fun r => ∃ i ∈ L, R i r) C := by
   have := flatMap_rows L (fun i => [f i]) R C h
   rw [List.map_eq_flatMap]; exact this
 
